@@ -94,7 +94,7 @@ void h_ex_arg(void)
 	char abbr[3];
 	abbr[0] = nondet_char(); abbr[1] = nondet_char(); abbr[2] = 0;
 	TOK_HARNESS(ex_arg(line + PX.s0, dst, abbr))
-	__CPROVER_assert(line[PX.s0] == 0 || ret > line + PX.s0, "ex_arg: unless the line is exhausted at least one byte is consumed (ex_exec's loop makes progress)");
+	H_ASSERT(line[PX.s0] == 0 || ret > line + PX.s0, "ex_arg: unless the line is exhausted at least one byte is consumed (ex_exec's loop makes progress)");
 #ifdef CANARY
 	__CPROVER_assert(0, "canary");
 #endif
